@@ -18,22 +18,29 @@ Definition split_first (c : N) (s : str) : option (str * str) :=
 
 Definition c_slash := 47. Definition c_colon := 58. Definition c_at := 64.
 
-(* go-digest v1.0.0 Digest.Validate with sha256/sha384/sha512 registered *)
+(* go-digest v1.0.0 Digest.Validate: the algorithm must be one of the three the package knows
+   (sha256/sha384/sha512, alg_table) AND available, i.e. its hash implementation linked into the
+   binary (crypto.Hash.Available: go-digest's README asks callers to import crypto/sha256 and
+   crypto/sha512).  [avail] is that link-time fact; every theorem holds for every [avail]. *)
 Definition hexlower (c : N) : bool := ((48 <=? c) && (c <=? 57)) || ((97 <=? c) && (c <=? 102)).
 Definition alg_table : list (str * nat) :=
   [(b "sha256", 64%nat); (b "sha384", 96%nat); (b "sha512", 128%nat)].
+
+Definition valid_tag (s : str) : bool := matches tagRegexp s.
+Definition valid_repository (s : str) : bool := matches repositoryRegexp s.
+
+Section WithDigests.
+Variable avail : str -> bool.
+
 Definition valid_digest (s : str) : bool :=
   match split_first c_colon s with
   | None => false
   | Some (alg, enc) =>
       match find (fun p => str_eqb (fst p) alg) alg_table with
-      | Some (_, n) => Nat.eqb (length enc) n && forallb hexlower enc
+      | Some (_, n) => avail alg && Nat.eqb (length enc) n && forallb hexlower enc
       | None => false
       end
   end.
-
-Definition valid_tag (s : str) : bool := matches tagRegexp s.
-Definition valid_repository (s : str) : bool := matches repositoryRegexp s.
 
 Section WithRegistry.
   Variable valid_registry : str -> bool.
@@ -105,6 +112,7 @@ Section WithRegistry.
   Definition repo_parse := repo_parse_gen true.
   Definition repo_parse_prefix := repo_parse_gen false.
 End WithRegistry.
+End WithDigests.
 
 (* URL builders of registry/remote/url.go, as byte strings *)
 Definition host_of (reg : str) : str :=
@@ -193,22 +201,22 @@ Definition registry_verdict (reg : str) : option bool :=
 
 (* three-valued parse for the correspondence check *)
 Inductive verdict := VOk (r : reference) | VErr | VUnjudged.
-Definition parse_verdict (s : str) : verdict :=
+Definition parse_verdict (avail : str -> bool) (s : str) : verdict :=
   match split_first c_slash s with
   | None => VErr
   | Some (reg, _) =>
       match registry_verdict reg with
       | None => VUnjudged
-      | Some v => match parse (fun _ => v) s with Some r => VOk r | None => VErr end
+      | Some v => match parse avail (fun _ => v) s with Some r => VOk r | None => VErr end
       end
   end.
 
-Definition repo_parse_verdict (breg brepo s : str) : verdict :=
+Definition repo_parse_verdict (avail : str -> bool) (breg brepo s : str) : verdict :=
   match split_first c_slash s with
-  | None => match repo_parse (fun _ => false) breg brepo s with Some r => VOk r | None => VErr end
+  | None => match repo_parse avail (fun _ => false) breg brepo s with Some r => VOk r | None => VErr end
   | Some (reg, _) =>
       match registry_verdict reg with
       | None => VUnjudged
-      | Some v => match repo_parse (fun _ => v) breg brepo s with Some r => VOk r | None => VErr end
+      | Some v => match repo_parse avail (fun _ => v) breg brepo s with Some r => VOk r | None => VErr end
       end
   end.
